@@ -27,6 +27,7 @@ use vmodel::*;
 mod boxedu;
 mod fixed;
 mod limbw;
+mod mixed;
 mod signed;
 
 pub fn spec() -> PropSpec {
@@ -520,5 +521,6 @@ fn subchecks(ctx: &Ctx) -> Vec<SubCheck> {
     v.push(SubCheck::new("boxed/shift-forms/1..=20", 80000, boxedu::forms(20)).tape(160).thorough(20));
     v.push(SubCheck::new("boxed/bits/1..=20", 8000, boxedu::bits(20)).tape(100).thorough(10));
     v.push(SubCheck::new("boxed/bitops/1..=20", 40000, boxedu::bitops(20)).tape(160).thorough(10));
+    v.push(SubCheck::new("boxed/bitops-mixed-precision/1..=20", 60000, mixed::bitops_mixed(20)).tape(160).thorough(10));
     v
 }
